@@ -198,9 +198,15 @@ class C20(Base):
             exp, _ = ref_dom(s, f, e, m)
         if out != exp:
             return "output %s != reference %s" % (d["ok"], hx(exp))
+        if d.get("x", "same") != "same":
+            return ("transform_dom is not a function of its arguments: called while another thread transforms the same text "
+                    "in another style it returned " + d["x"][:90])
         mv, nv = d.get("m", "na"), d.get("n", "na")
         sv, rv, lv, qv = d.get("s", "na"), d.get("r", "na"), d.get("l", "na"), d.get("q", "na")
         for f in (mv, nv, sv, rv, lv, qv):
+            if f.startswith("CONFIG-HISTORY"):
+                return ("the same transform installed through another configuration history (set_formatter(None) after "
+                        "set_transform / formatter installed and removed / transform replaced) answers differently: " + f[:90])
             if f.startswith("WRITE-DIFFERS"):
                 return "write_pattern and format_pattern disagree under set_transform: " + f[:80]
         if mv != "na" and mv != d["ok"]:
@@ -222,6 +228,13 @@ class C20(Base):
                 return "through set_transform, two-line text pattern: %s != transform(line 1 + LF) + transform(line 2)" % lv
         if rv != "na" and (rv.startswith("err") or unhx(rv) != out.encode("utf-8") * 3):
             return "through set_transform, text through a term reference / direct / message reference: %s != direct x 3" % rv
+        uv = d.get("u", "na")
+        if uv.startswith(("CONFIG-HISTORY", "WRITE-DIFFERS")):
+            return "through set_transform, pattern with unresolvable references: " + uv[:90]
+        o8 = out.encode("utf-8")
+        if uv != "na" and (uv.startswith("err") or unhx(uv) != o8 + b"{nope}" + o8 + b"{-nope}{m.nope}{NOPE()}"):
+            return ("through set_transform, text around references that do not resolve: %s - the `{name}` placeholders are not "
+                    "text of the pattern and are written as they are" % uv[:120])
         return None
 
     def nontrivial(self, case, impl_obs):
